@@ -173,6 +173,25 @@ def run(ctx):
                     ops.append("slice%d" % kind)
             except Exception as e:
                 ctx.violation("copy-or-slice-raises", "%r" % (e,), desc)
+        # a multi-step history on one object: ivar read, uncertainties scaled (the package's own tests do `data.rv *= 1.5`),
+        # ivar read again - it must be the reciprocal variance of the *current* uncertainties
+        if finite_all and len(d) > 0 and rng.random() < 0.5:
+            try:
+                iv0 = np.array(d.ivar.value, copy=True)
+                fac = float(rng.choice([2.0, 3.0, 0.5]))
+                if rng.random() < 0.5:
+                    d.rv_err = d.rv_err * (fac ** 2 if d._has_cov else fac)
+                else:
+                    d.rv_err *= (fac ** 2 if d._has_cov else fac)
+                iv1 = np.asarray(d.ivar.value)
+                ctx.evaluations += 1
+                ops.append("ivar-after-rescale")
+                rt = 1e-12 if np.asarray(d.rv_err.value).dtype.itemsize >= 8 else 1e-5
+                if not np.allclose(iv1, iv0 / fac ** 2, rtol=max(rt, 1e-9 * (np.linalg.cond(d.rv_err.value) if d._has_cov else 1)), atol=0):
+                    ctx.violation("ivar-stale-after-rescale", "after scaling rv_err by %g the inverse variance is not 1/%g^2 of the "
+                                  "previous one" % (fac, fac), desc)
+            except Exception as e:
+                ctx.exception(e, "ivar after rescaling", desc)
         fired = M.drain()
         nchecked = sum(M.COUNTS.get(k, 0) - before.get(k, 0)
                        for k in ("RVData.__init__", "RVData.copy", "RVData.__getitem__"))
